@@ -86,7 +86,7 @@ def _same_opt(a, b):
 
 
 def _kept(s, field):
-    return _same_opt(getattr(s.old.loader, field), getattr(s.cur.loader, field))
+    return _same_opt(getattr(s.old.loader, field), getattr(s.loader, field))
 
 
 @contract('gemato/profile.py', 'DefaultProfile.set_loader_options', props=['C19'])
@@ -121,7 +121,7 @@ def _(c):
         c.ensures('explicit-%s-kept' % f,
                   lambda s, f=f: S.Implies(S.Not(S.opt_none(getattr(s.old.loader, f))), _kept(s, f)))
         c.ensures('default-%s' % f,
-                  lambda s, f=f: S.Implies(S.opt_none(getattr(s.old.loader, f)), _is_default(getattr(s.cur.loader, f), f)))
+                  lambda s, f=f: S.Implies(S.opt_none(getattr(s.old.loader, f)), _is_default(getattr(s.loader, f), f)))
 
 
 # ---------------------------------------------------------------------------------------------------------------------------
